@@ -1,5 +1,6 @@
 """Sidecar contracts for the terminal stores of ProFormaAnnotation (used as callee contracts by the static builder, condensing and the
-fragmenter's pieces: C13, C12, C18, C04): the property setters with a VALUE and add_nterm_mods / add_cterm_mods.
+fragmenter's pieces: C13, C12, C18, C04): the property setters with a VALUE and the add_* methods of the six list-valued fields
+(N-/C-terminal, unknown-position, static, isotope, labile), add_internal_mod and add_internal_mods in append mode.
 
 setter(value): the field becomes None for None, otherwise the normalised value (fix_list_of_mods; the deep copy is value identity here, its
 freshness is C08's frame claim); nothing else changes.
@@ -9,13 +10,14 @@ there (CAT of the two opaque lists); every other field is untouched; with a valu
 from contracts._records import RECORDS, CLASSES, CTORS, PA, accessor_contracts
 ALIASES = {}
 OPAQUE_LISTS = ['ModList']
-C = {k: v for k, v in accessor_contracts().items() if k.split('.')[-1] in ('nterm_mods', 'cterm_mods', 'has_nterm_mods', 'has_cterm_mods')}
+_TS = ('nterm', 'cterm', 'unknown', 'static', 'isotope', 'labile')
+C = {k: v for k, v in accessor_contracts().items() if k.split('.')[-1] in [t + '_mods' for t in _TS] + ['has_' + t + '_mods' for t in _TS]}
 C['peptacular.proforma.input_convert:fix_list_of_mods'] = dict(
     params=dict(mods='ModList'), returns='ModList', pure=True, trusted=True,
     bounded_by='input normalisation of a list of modifications: bounded/C20.py, bounded/C13.py', ensures=[])
 FUNCS = {'CAT_ModList': (['ModList', 'ModList'], 'ModList')}
 _ALL = list(RECORDS['Annotation'])
-for _t in ('nterm', 'cterm'):
+for _t in _TS:
     _others = ' and '.join('same(self_final.%s, self.%s)' % (g, g) for g in _ALL if g != '_%s_mods' % _t)
     C[PA + '%s_mods.setter' % _t] = dict(
         params=dict(self='Annotation', value='Optional[ModList]'), returns='None', mutates=['self'], raises={},
@@ -30,11 +32,12 @@ for _t in ('nterm', 'cterm'):
         ensures=[('none-with-replace-clears', 'implies(mods is None and not append, %s is None)' % _G),
                  ('none-with-append-changes-nothing', 'implies(mods is None and append, same(%s, %s))' % (_G, _F)),
                  ('a-value-replaces', 'implies(mods is not None and (not append or %s is None), %s is not None and '
-                                      # (normalised by the method and once more by the setter it goes through)
-                                      'some(%s) == fix_list_of_mods(fix_list_of_mods(some(mods))))' % (_F, _G, _G)),
+                                      # (normalised by the method and once more by the setter it goes through; add_labile_mods itself does not normalise)
+                                      'some(%s) == %s)' % (_F, _G, _G, 'fix_list_of_mods(some(mods))' if _t == 'labile' else
+                                                           'fix_list_of_mods(fix_list_of_mods(some(mods)))')),
                  ('a-value-is-appended-to-an-existing-terminus',
                   'implies(mods is not None and append and %s is not None, %s is not None and '
-                  'some(%s) == CAT_ModList(some(%s), fix_list_of_mods(some(mods))))' % (_F, _G, _G, _F)),
+                  'some(%s) == CAT_ModList(some(%s), %s))' % (_F, _G, _G, _F, 'some(mods)' if _t == 'labile' else 'fix_list_of_mods(some(mods))')),
                  ('with-a-value-the-terminus-is-modified', 'implies(mods is not None, %s is not None)' % _G),
                  ('nothing-else', _others)])
 
